@@ -60,6 +60,9 @@ func baseGenesisMod(app *simapp.SimApp, gs simapp.GenesisState) {
 	var sg servicetypes.GenesisState
 	app.AppCodec().MustUnmarshalJSON(gs[servicetypes.ModuleName], &sg)
 	sg.Definitions = append(sg.Definitions, servicetypes.GetRandomSvcDefinition())
+	// and the oracle-price system service (exchange rates for prices quoted in other coins)
+	sg.Definitions = append(sg.Definitions, servicetypes.GenOraclePriceSvcDefinition())
+	sg.Bindings = append(sg.Bindings, servicetypes.GenOraclePriceSvcBinding("stake"))
 	gs[servicetypes.ModuleName] = app.AppCodec().MustMarshalJSON(&sg)
 
 	// one cross-chain asset with U1 as its deputy, so that histories contain HTLTs of both directions
